@@ -3,7 +3,7 @@ import concurrent.futures
 import json
 import os
 
-from vlib import core, cover_inst as ci, cover_coq as cq
+from vlib import core, cover_inst as ci, cover_coq as cq, cover_bbgen
 from vlib.core import Broken, Mismatch, Failing
 from oracles import cover_brute as brute
 
@@ -33,7 +33,9 @@ CORES3 = [126, 189, 219, 231]
 
 def prove(ctx):
     with ctx.coq_lock():
+        cover_bbgen.ensure(ctx)
         ctx.prove('Properties/C10.v', timeout=900)
+    ctx.trusted.append(cover_bbgen.TRUSTED)
     ctx.trusted.append(
         'tie H: omega/symbolic/cover_enum.py is modelled by hand in '
         'L5Cover/CoverEnum.v (as repaired by fixes/F2.patch); on every run '
